@@ -152,7 +152,7 @@ def run_case(spec, ctx):
             for j, (c, u) in enumerate(zip(cols, model.univariates)):
                 if const[j]:
                     continue
-                okp, want = ctx.call(u.percent_point, ndtr(Z[:, j]))
+                okp, want = ctx.call(uni.reference_percent_point(u), ndtr(Z[:, j]))
                 if not okp:
                     continue
                 want = np.asarray(want, dtype=float)
